@@ -665,6 +665,10 @@ def worker(acc, shard, nshards, tier, seed):
                 boxes = [Boxed(np, v, kk, 1.0) for v, kk in zip(vals, canon_kinds)]
                 r = core.call(fn, *[b.obj for b in boxes])
                 base_cache[key] = None if isinstance(r, core.Exc) else canon(r)
+                if isinstance(r, core.Exc):
+                    # every catalogue routine must work on its canonical containers, otherwise nothing is compared for it
+                    acc.violation('container', name, eng, {'api': name, 'containers': '+'.join(canon_kinds), 'what': 'canonical form fails'},
+                                  {'api': name, 'values': vals, 'containers': list(canon_kinds)}, 'a result on the canonical containers', repr(r))
             core.crumb({'api': name, 'values': vals, 'containers': kinds})
             run_call(acc, E, name, eng, fn, vals, kinds, base_cache[key])
             acc.case('pair-' + kindname, nontrivial=any(x not in ('list', 'array') for x in kinds))
@@ -697,6 +701,9 @@ def worker(acc, shard, nshards, tier, seed):
                 obj, _ = coll_forms(np, util, vals, nd, 1.0)[canon_form]
                 rb = core.call(fn, obj)
                 base = None if isinstance(rb, core.Exc) else canon(rb)
+                if isinstance(rb, core.Exc) and shard == 0:
+                    acc.violation('container', name, eng, {'api': name, 'containers': canon_form, 'what': 'canonical form fails'},
+                                  {'api': name, 'values': vals, 'container': canon_form}, 'a result on the canonical container', repr(rb))
                 for fname in forms:
                     k += 1
                     if k % nshards != shard:
